@@ -38,6 +38,14 @@ CHECKS = {
          "for loops over every vec/tuple of length 0-3, every range with bounds in [-2,3], every string up to 2/3 chars over a 1-4-byte alphabet, user iterators; break/continue/return at every position; nested and shared iterators; every map/filter chain to depth 2/3 with 5 callbacks, reduce, collect; protocol violations; vec mutation at every position. All on the real VM vs M-eval (which runs the library's own Iter/MapIter/FilterIter definitions as AST).",
          "Trusts M-eval's iteration model (Appendix A).",
          "5/C18"),
+ "C13": ("bounded-exhaustive input enumeration vs the byte-exact reference model M-str",
+         "Every string over a 1/2/3/4-byte alphabet up to 3/4 characters x every integer index and slice bound in [-len-2,len+2] (all mid-character offsets) plus fractional/NaN/inf/2^53/2^63/non-number indices; vecs and tuples of 0-4 elements likewise incl. item assignment; every string method with every 1-2 character needle and every start; from_ascii/from_utf8/from_code_points over all boundary byte vectors and code points; escape forms. 52k (quick) probes, one printed line each, compared byte for byte (error class on failure).",
+         "Trusts M-str (written over bytes, independent of std's char_indices/split/replace except to_num). (Q) quirks transcribed: see DESIGN.md Appendix A.",
+         "5/C13"),
+ "C19": ("bounded-exhaustive input enumeration vs M-num/M-lex (exact integer arithmetic for nearestness; hand-expanded shortest digits)",
+         "Every double +-(1+j/2^m)*2^e for all exponents (normal and subnormal), m=4/7, plus boundaries (10^k neighbours for all k, 2^53/2^63 neighbours, subnormal limits, zeros, NaN, inf) built exactly from integers and powers of two: print->parse returns the identical number, text equals the model's, interpolation agrees; every literal digits[.digits] up to 5/6 characters equals the exactly constructed nearest double; every digit string up to 3 digits in each `.`-lookahead context (positive by construction, negative by expected compile error).",
+         "Where two shortest digit strings round-trip, the printed text is not compared (tie-breaking is not fixed by the property). Long-literal nearestness relies on the host parser.",
+         "5/C19"),
 }
 NOT_YET = "check not built yet in this revision of /verif (work in progress; see DESIGN.md section 10)"
 
